@@ -294,6 +294,8 @@ impl Store {
 
                     if let Some(limit) = options.limit {
                         if count >= limit {
+                            #[cfg(feature = "verif")]
+                            crate::verif::sync("hist.stop", None, verif_reader);
                             return; // Exit early if limit reached
                         }
                     }
@@ -308,6 +310,8 @@ impl Store {
 
                 // The historical frames already met the limit: nothing may follow them
                 if options.limit.is_some_and(|limit| count >= limit) {
+                    #[cfg(feature = "verif")]
+                    crate::verif::sync("hist.stop", None, verif_reader);
                     return;
                 }
 
@@ -385,6 +389,8 @@ impl Store {
                             }
                         }
                     }
+                    #[cfg(feature = "verif")]
+                    crate::verif::sync("live.end", None, verif_reader);
                 });
             }
 
